@@ -485,15 +485,30 @@ def run(ctx: Ctx, rep: Report, tier: str) -> None:  # noqa: C901
                 nm = n.args[1]
                 if isinstance(nm, ast.Constant) and nm.value in views:
                     writers[nm.value].add(f.qualname)
+    # private helpers that only the line setter (or another such helper) calls are parts of the line setter
+    callers: Dict[str, Set[str]] = {}
+    for g in ctx.prog.funcs:
+        for e in ctx.cg.all_edges(g):
+            if isinstance(e.target, Func) and not e.weak:
+                callers.setdefault(e.target.qualname, set()).add(g.qualname)
+    part_of_setter = {ls.qualname}
+    grew = True
+    while grew:
+        grew = False
+        for q, cs in callers.items():
+            fq = ctx.prog.find_func(q)
+            if q not in part_of_setter and fq is not None and fq.cls is not None and fq.cls.is_subclass_of(port) and fq.name.startswith("_") and not fq.name.startswith("__") and fq.kind not in ("getter", "setter") and cs and cs <= part_of_setter:
+                part_of_setter.add(q)
+                grew = True
     for v in views:
         rep.instance()
-        extra = writers[v] - {ls.qualname}
+        extra = writers[v] - part_of_setter
         if extra:
             rep.violation(sorted(extra)[0], f"stores {v}", f"{v} is written outside Port.line setter: items/ports/sport/line can diverge", "cisco_acl/port.py")
         elif not writers[v]:
             rep.violation(ls.qualname, f"{v}", "the stored view is never written", where(ls))
         else:
-            rep.ok(f"{v}", "only Port.line setter stores it", where=where(ls))
+            rep.ok(f"{v}", "only Port.line setter (and private helpers only it calls) stores it", where=where(ls))
     lcfg = ctx.cfg(ls)
     for p in function_paths(lcfg):
         if p.raises:
@@ -504,6 +519,17 @@ def run(ctx: Ctx, rep: Report, tier: str) -> None:  # noqa: C901
                 for t in node.ast.targets:
                     if isinstance(t, ast.Attribute) and src(t.value) == "self" and t.attr in views:
                         stored[t.attr] = node.ast.value
+            # a private helper of the setter that definitely stores a view on every normal path (interprocedural must-assign)
+            if node.kind == "stmt" and node.ast is not None:
+                for c in ast.walk(node.ast):
+                    if isinstance(c, ast.Call) and isinstance(c.func, ast.Attribute) and src(c.func.value) == "self" and c.func.attr.startswith("_"):
+                        hm = port.lookup_method(c.func.attr)
+                        if hm is not None:
+                            from .c17 import _must_assign
+
+                            for a_ in _must_assign(ctx, hm, port, {}):
+                                if a_ in views and a_ not in stored:
+                                    stored[a_] = c
         rep.instance()
         miss = [v for v in views if v not in stored]
         if miss:
@@ -514,7 +540,23 @@ def run(ctx: Ctx, rep: Report, tier: str) -> None:  # noqa: C901
         po = deep_resolve(stored["_ports"], p.env)
         it = deep_resolve(stored["_items"], p.env)
         cons_ok = True
-        if not (isinstance(po, ast.List) and not po.elts):
+        # both values unpacked from ONE call of a private helper that returns `(<items>, self._items_to_ports(<items>))`
+        via_helper = False
+        if isinstance(stored["_ports"], ast.Name) and isinstance(stored["_items"], ast.Name):
+            for node, _lab in p.nodes:
+                if node.kind == "stmt" and isinstance(node.ast, ast.Assign) and isinstance(node.ast.targets[0], ast.Tuple) and isinstance(node.ast.value, ast.Call) and isinstance(node.ast.value.func, ast.Attribute) and src(node.ast.value.func.value) == "self":
+                    names = [src(e) for e in node.ast.targets[0].elts]
+                    if stored["_items"].id in names and stored["_ports"].id in names:
+                        hm = port.lookup_method(node.ast.value.func.attr)
+                        rets = [r for r in own_nodes(hm.node) if isinstance(r, ast.Return) and r.value is not None] if hm is not None else []
+                        if rets and all(isinstance(r.value, ast.Tuple) and len(r.value.elts) == len(names) for r in rets):
+                            ii, ip = names.index(stored["_items"].id), names.index(stored["_ports"].id)
+                            via_helper = all(isinstance(r.value.elts[ip], ast.Call) and src(r.value.elts[ip].func).endswith("_items_to_ports") and r.value.elts[ip].args and src(r.value.elts[ip].args[0]) == src(r.value.elts[ii]) for r in rets)
+        if via_helper:
+            if not (isinstance(sp, ast.Call) and sp.args and src(sp.args[0]) == src(stored["_ports"])):
+                cons_ok = False
+                rep.violation(ls.qualname, f"_sport = {snippet(stored['_sport'])}", "the range string is not computed from the list stored in _ports", where(ls))
+        elif not (isinstance(po, ast.List) and not po.elts):
             if not (isinstance(sp, ast.Call) and sp.args and src(sp.args[0]) == src(po)):
                 cons_ok = False
                 rep.violation(ls.qualname, f"_sport = {snippet(stored['_sport'])}", "the range string is not computed from the list stored in _ports", where(ls))
@@ -572,11 +614,19 @@ def rejected_leaves_unchanged(ctx: Ctx, rep: Report, rid: str = "R08.13", target
         cfg = ctx.cfg(f)
         dom = cfg.dominators()
 
+        def pairs_of(st: ast.AST):
+            """(target, value) pairs of an assignment; a tuple target over a tuple value is taken element by element."""
+            for t in (st.targets if isinstance(st, ast.Assign) else [st.target]):
+                if isinstance(t, (ast.Tuple, ast.List)) and isinstance(st.value, (ast.Tuple, ast.List)) and len(t.elts) == len(st.value.elts):
+                    yield from zip(t.elts, st.value.elts)
+                else:
+                    yield t, st.value
+
         def store_of(nd: Node, attr: str) -> Optional[ast.AST]:
             if nd.kind == "stmt" and isinstance(nd.ast, (ast.Assign, ast.AnnAssign)) and getattr(nd.ast, "value", None) is not None:
-                for t in (nd.ast.targets if isinstance(nd.ast, ast.Assign) else [nd.ast.target]):
+                for t, v in pairs_of(nd.ast):
                     if isinstance(t, ast.Attribute) and src(t.value) == "self" and t.attr == attr:
-                        return nd.ast.value
+                        return v
             return None
 
         def may_raise(nd: Node) -> bool:
@@ -596,9 +646,11 @@ def rejected_leaves_unchanged(ctx: Ctx, rep: Report, rid: str = "R08.13", target
                 # saved copies of the old value: v = self.attr at a node that dominates the store
                 saved = set()
                 for nd in cfg.live:
-                    if nd.kind == "stmt" and isinstance(nd.ast, (ast.Assign, ast.AnnAssign)) and getattr(nd.ast, "value", None) is not None and isinstance(nd.ast.value, ast.Attribute) and src(nd.ast.value) == f"self.{attr}" and nd in dom.get(st, set()):
-                        for t in (nd.ast.targets if isinstance(nd.ast, ast.Assign) else [nd.ast.target]):
-                            if isinstance(t, ast.Name):
+                    if nd.kind == "stmt" and isinstance(nd.ast, (ast.Assign, ast.AnnAssign)) and getattr(nd.ast, "value", None) is not None and (nd in dom.get(st, set()) or nd is st):
+                        for t, v in pairs_of(nd.ast):
+                            # `old = self.attr` before the store, or in the same statement (`old, self.attr = self.attr, new`:
+                            # the right-hand side is evaluated first)
+                            if isinstance(t, ast.Name) and isinstance(v, ast.Attribute) and src(v) == f"self.{attr}":
                                 saved.add(t.id)
                 is_restore = lambda nd: (lambda v: isinstance(v, ast.Name) and v.id in saved)(store_of(nd, attr))  # noqa: E731
                 if is_restore(st):
